@@ -28,6 +28,8 @@ type POp struct {
 	Op  string `json:"op"` // push, tag, untag, delete, gc, save
 	N   int    `json:"n,omitempty"`
 	Ref string `json:"ref,omitempty"`
+	// Ann (tag): the tagged descriptor carries annotations (see crash.Op.Ann)
+	Ann bool `json:"ann,omitempty"`
 }
 
 // Case is a prefix history plus one interrupted operation.
@@ -85,16 +87,17 @@ func genCaseSeeded(seed int) Case {
 				n := rapid.SampledFrom(ids).Draw(t, "tagN")
 				if stored[n] {
 					ref := rapid.SampledFrom(refs).Draw(t, "ref")
-					c.Prefix = append(c.Prefix, POp{Op: "tag", N: n, Ref: ref})
+					annTags := rapid.Bool().Draw(t, "annTags")
+					c.Prefix = append(c.Prefix, POp{Op: "tag", N: n, Ref: ref, Ann: annTags})
 					tags[ref] = n
 					if rapid.IntRange(0, 2).Draw(t, "secondTag") != 1 {
 						// several tags on one node: its deletion rewrites several entries
 						ref2 := rapid.SampledFrom(refs).Draw(t, "ref2")
-						c.Prefix = append(c.Prefix, POp{Op: "tag", N: n, Ref: ref2})
+						c.Prefix = append(c.Prefix, POp{Op: "tag", N: n, Ref: ref2, Ann: annTags})
 						tags[ref2] = n
 						if rapid.Bool().Draw(t, "thirdTag") {
 							ref3 := rapid.SampledFrom(refs).Draw(t, "ref3")
-							c.Prefix = append(c.Prefix, POp{Op: "tag", N: n, Ref: ref3})
+							c.Prefix = append(c.Prefix, POp{Op: "tag", N: n, Ref: ref3, Ann: annTags})
 							tags[ref3] = n
 						}
 					}
@@ -245,7 +248,7 @@ func (c *Case) descOf(d *gen.DAG, n int) ocispec.Descriptor {
 }
 
 func (c *Case) toOp(d *gen.DAG, p POp) crash.Op {
-	op := crash.Op{Op: p.Op, Ref: p.Ref}
+	op := crash.Op{Op: p.Op, Ref: p.Ref, Ann: p.Ann}
 	if p.Op == "push" || p.Op == "tag" || p.Op == "delete" {
 		desc := c.descOf(d, p.N)
 		op.MediaType, op.Digest, op.Size = desc.MediaType, desc.Digest.String(), desc.Size
@@ -352,6 +355,39 @@ func runCase(c Case, child string) (res vt.Result, fail *vt.Fail) {
 	after, err := readState(&c, d, dir)
 	if err != nil {
 		return res, vt.Failf("C10/completed-op-unreadable", "after the un-interrupted %s the layout does not read back: %v", c.Last.Op, err)
+	}
+	// what the operations that returned were told to do with the tags is known
+	// without looking at the store: both states must show exactly that
+	modelTags := func(ops []POp) map[string]string {
+		m := map[string]int{}
+		for _, p := range ops {
+			switch p.Op {
+			case "tag":
+				m[p.Ref] = d.Nodes[p.N].Canon
+			case "untag":
+				delete(m, p.Ref)
+			case "delete":
+				for r, n := range m {
+					if d.Nodes[n].DCanon == d.Nodes[d.Nodes[p.N].Canon].DCanon {
+						delete(m, r)
+					}
+				}
+			}
+		}
+		out := map[string]string{}
+		for r, n := range m {
+			out[r] = c.descOf(d, n).Digest.String()
+		}
+		return out
+	}
+	if want := modelTags(c.Prefix); !tagsEqual(before.tags, want) {
+		return res, vt.Failf("C10/returned-effect-lost", "after the prefix %v returned, the reopened layout maps tags %v; the operations set %v", c.Prefix, short(before.tags), short(want))
+	}
+	if want := modelTags(append(append([]POp(nil), c.Prefix...), c.Last)); !tagsEqual(after.tags, want) {
+		return res, vt.Failf("C10/returned-effect-lost", "after the prefix and %v returned, the reopened layout maps tags %v; the operations set %v", c.Last, short(after.tags), short(want))
+	}
+	if probs := fsx.ValidateLayout(dir, false); len(probs) > 0 {
+		return res, vt.Failf("C10/layout-invalid-after-completion/"+probs[0].Kind, "after the un-interrupted %v: %v", c.Last, probs)
 	}
 	changes := !tagsEqual(before.tags, after.tags) || fmt.Sprint(before.exists) != fmt.Sprint(after.exists)
 	res.Evals = len(pts)
